@@ -1,7 +1,8 @@
 #!/bin/bash
 # determinism self-test: for each check, the first N runs of the quick batch are executed three times in fresh
 # interpreters - 16 workers, 5 workers (event-log digests must be identical run by run) and under another
-# PYTHONHASHSEED (message bytes legitimately differ there: only the verdicts must agree).
+# PYTHONHASHSEED (message bytes legitimately differ there: only the verdicts must agree); the plans of the first 8 runs
+# are replayed from replay files in fresh processes and must reproduce the batch digests.
 # usage: tools_selftest.sh [N] [ids...]     writes selftest/<ID>.txt, prints one line per check
 cd "$(dirname "$0")" || exit 2
 n=${1:-48}; shift
@@ -12,12 +13,19 @@ for id in $ids; do
   VERIF_NO_SHRINK=1 VERIF_NO_EVIDENCE=1 VERIF_RUNS=$n VERIF_WALL=600 VERIF_WORKERS=16 VERIF_DIGEST_LOG=$t/a timeout 900 ./check $id > /dev/null 2>&1
   VERIF_NO_SHRINK=1 VERIF_NO_EVIDENCE=1 VERIF_RUNS=$n VERIF_WALL=600 VERIF_WORKERS=5 VERIF_DIGEST_LOG=$t/b timeout 900 ./check $id > /dev/null 2>&1
   VERIF_NO_SHRINK=1 VERIF_NO_EVIDENCE=1 VERIF_RUNS=$n VERIF_WALL=600 VERIF_WORKERS=16 VERIF_HASHSEED=12345 VERIF_DIGEST_LOG=$t/c timeout 900 ./check $id > /dev/null 2>&1
+  # replay path: the plans of the first runs, re-executed from their replay files in fresh processes
+  rep=0
+  for pf in $t/a.plans/*.json; do
+    [ -f "$pf" ] || continue
+    timeout 300 ./check $id --replay $pf 2>&1 | grep -q 'REPLAY-DIVERGED\|HARNESS-ERROR' && rep=$((rep+1))
+  done
+  nrep=$(ls $t/a.plans/*.json 2>/dev/null | wc -l)
   same=$(diff <(cut -d' ' -f1-3 $t/a) <(cut -d' ' -f1-3 $t/b) | grep -c '^<')
   verd=$(diff <(cut -d' ' -f1,4 $t/a) <(cut -d' ' -f1,4 $t/c) | grep -c '^<')
   runs=$(wc -l < $t/a)
-  line="$id runs=$runs digest_mismatches_16_vs_5_workers=$same verdict_mismatches_other_hashseed=$verd"
+  line="$id runs=$runs digest_mismatches_16_vs_5_workers=$same verdict_mismatches_other_hashseed=$verd replayed_plans=$nrep replay_digest_mismatches=$rep"
   echo "$line"; { echo "$line"; echo "# index digest steps verdict (16 workers, PYTHONHASHSEED=0)"; cat $t/a; } > selftest/$id.txt
-  [ "$same" = 0 ] && [ "$verd" = 0 ] && [ "$runs" -ge 1 ] || rc=1
+  [ "$same" = 0 ] && [ "$verd" = 0 ] && [ "$rep" = 0 ] && [ "$runs" -ge 1 ] || rc=1
 done
 rm -rf $t
 exit $rc
